@@ -48,6 +48,13 @@ def typed(st, t, k):
     return []
 
 
+def assume_typed_if(st, cond, t, k, heap=None):
+    """typing of a value that only exists under `cond` (list element in range, dict key present)"""
+    fs = typed(heap or st, t, k)
+    if fs:
+        st.assume(z3.Implies(cond, z3.And(fs)), glob=True)
+
+
 def assume_typed(st, t, k, heap=None):
     """typing facts are heap invariants: they hold unconditionally (glob)"""
     key = (t.get_id(), repr(k), (heap or st).H("llen").get_id() if k.head in ("list", "vtuple", "opt") else 0,
@@ -106,10 +113,10 @@ def wf_cell(val, comp, alloc):
     return None
 
 
-ARRAY_MODE = ["lambda"]
+ARRAY_MODE = [__import__("os").environ.get("PYVC_ARRAY_MODE", "axiom")]
 
 
-def mk_array(st, j, body, closed=True):
+def mk_array(st, j, body, closed=True, pats=()):
     """array defined pointwise: as a lambda term, or (closed terms only) a fresh constant + axiom"""
     if not closed or getattr(st, "in_binder", 0):
         return z3.Lambda([j], body)
@@ -117,7 +124,14 @@ def mk_array(st, j, body, closed=True):
     if ARRAY_MODE[0] == "lambda":
         st.assume(a == z3.Lambda([j], body), glob=True)
     else:
-        st.assume(z3.ForAll([j], z3.Select(a, j) == body, patterns=[z3.Select(a, j)]), glob=True)
+        ps = [z3.Select(a, j)]
+        for p_ in pats:
+            try:
+                z3.ForAll([j], z3.Select(a, j) == body, patterns=[p_])
+                ps.append(p_)
+            except z3.Z3Exception:
+                pass
+        st.assume(z3.ForAll([j], z3.Select(a, j) == body, patterns=ps), glob=True)
     return a
 
 
@@ -280,9 +294,9 @@ def write_set(run, st, r, mem, line):
 EMPTY_MEM = z3.K(V, z3.BoolVal(False))
 
 
-def mem_of_list(st, r):
+def mem_of_list(st, r, into=None):
     x, j = bvarV("x"), bvar("j")
-    return z3.Lambda([x], z3.Exists([j], z3.And(0 <= j, j < l_len(st, r), l_get(st, r, j) == x)))
+    return mk_array(into or st, x, z3.Exists([j], z3.And(0 <= j, j < l_len(st, r), l_get(st, r, j) == x)))
 
 
 def d_has(st, r):
